@@ -76,8 +76,7 @@ theorem c16_lex_tok (t : Tok) (rest : List Char) (acc : List Tok) (h : tokLexOk 
       rw [this]
   | lit =>
     have h1 : startTok '0' acc = some (.num, acc) := by rfl
-    have h2 : (Char.isAlphanum ' ' || ' ' == '.' || ' ' == '_') = false := by decide
-    simp [tokCs, lexGo, h1, h2, c16_startTok_space]
+    simp [tokCs, lexGo, h1, c16_startTok_space]
   | lpar =>
     have h1 : startTok '(' acc = some (.idle, .lpar :: acc) := by rfl
     simp [tokCs, lexGo, h1, c16_startTok_space]
@@ -281,6 +280,120 @@ theorem c16_lexOk_initToks (anns : String → Ann) (s : Sig) (h : textDomain ann
         · rfl
         · decide
   · rfl
+  · rfl
+  · rfl
+
+theorem c16_lexOk_helperItem (a : Ann) (p : Param) (hn : identOk p.name = true) (h : a.wf = true) :
+    ∀ t ∈ helperItem a p, tokLexOk t = true := by
+  intro t ht
+  rw [c16_helperItem_eq] at ht
+  simp only [List.mem_cons, List.mem_append, annPart, dfltPart] at ht
+  rcases ht with rfl | (rfl | ht) | rfl | ht
+  · exact c16_identChars_of_identOk hn
+  · rfl
+  · exact c16_lexOk_ann _ (c16_fieldAnn_wf a p h) t ht
+  · rfl
+  · exact c16_lexOk_ann noneAnn c16_noneAnn_wf t ht
+
+theorem c16_lexOk_helperLead (hk : Helper) : ∀ x ∈ helperLead hk, ∀ t ∈ x, tokLexOk t = true := by
+  cases hk <;> decide
+
+/-- every token of the three generated helper methods is lexable -/
+theorem c16_lexOk_helperToks (anns : String → Ann) (hk : Helper) (s : Sig) (h : textDomain anns s.params = true) :
+    ∀ t ∈ helperToks anns hk s, tokLexOk t = true := by
+  have hdom : ∀ p ∈ s.params, identOk p.name = true ∧ (anns p.name).wf = true := by
+    intro p hp
+    have := List.all_eq_true.mp h p hp
+    simpa using this
+  have hname : tokLexOk (.name (helperName hk)) = true := by cases hk <;> decide
+  intro t ht
+  simp only [helperToks, defToks, List.mem_cons, List.mem_append, List.not_mem_nil, or_false] at ht
+  rcases ht with rfl | rfl | rfl | ht | rfl | rfl | rfl
+  · decide
+  · exact hname
+  · rfl
+  · refine c16_lexOk_joinComma _ ?_ t ht
+    intro x hx u hu
+    simp only [List.mem_append, List.mem_map] at hx
+    rcases hx with (hx | ⟨p, hp, rfl⟩) | hx
+    · exact c16_lexOk_helperLead hk x hx u hu
+    · exact c16_lexOk_helperItem _ p (hdom p hp).1 (hdom p hp).2 u hu
+    · cases hkw : s.kw
+      · simp [hkw] at hx
+      · simp only [hkw, if_true, List.mem_singleton] at hx
+        subst hx
+        simp only [kwItem, List.mem_cons, List.not_mem_nil, or_false] at hu
+        rcases hu with rfl | rfl
+        · rfl
+        · decide
+  · rfl
+  · rfl
+  · rfl
+
+theorem c16_lexOk_optPart (a : Option Ann) (h : optWf a = true) :
+    (∀ t ∈ annPart a, tokLexOk t = true) ∧ (∀ t ∈ dfltPart a, tokLexOk t = true) ∧
+    (∀ t ∈ retPart a, tokLexOk t = true) := by
+  cases a with
+  | none => simp [annPart, dfltPart, retPart]
+  | some x =>
+    have := c16_lexOk_ann x h
+    refine ⟨?_, ?_, ?_⟩ <;> intro t ht <;>
+      simp only [annPart, dfltPart, retPart, List.mem_cons] at ht <;> rcases ht with rfl | ht
+    · rfl
+    · exact this t ht
+    · rfl
+    · exact this t ht
+    · rfl
+    · exact this t ht
+
+theorem c16_lexOk_rparamToks (p : RParam) (h : rparamOk p = true) : ∀ t ∈ rparamToks p, tokLexOk t = true := by
+  simp only [rparamOk, Bool.and_eq_true] at h
+  intro t ht
+  simp only [rparamToks, List.mem_append, List.mem_cons] at ht
+  rcases ht with ht | rfl | ht | ht
+  · cases hk : p.kind <;> simp [kindPrefix, hk] at ht <;> subst ht <;> rfl
+  · exact c16_identChars_of_identOk h.1.1
+  · exact (c16_lexOk_optPart p.ann h.1.2).1 t ht
+  · exact (c16_lexOk_optPart p.dflt h.2).2.1 t ht
+
+theorem c16_lexOk_sigItems (ps : List RParam) (pending found : Bool) (h : ∀ p ∈ ps, rparamOk p = true) :
+    ∀ x ∈ sigItemsGo pending found ps, ∀ t ∈ x, tokLexOk t = true := by
+  induction ps generalizing pending found with
+  | nil =>
+    cases pending
+    · simp [sigItemsGo]
+    · intro x hx t ht
+      simp only [sigItemsGo, if_true, List.mem_singleton] at hx
+      subst hx
+      simp only [List.mem_singleton] at ht
+      subst ht
+      rfl
+  | cons p ps ih =>
+    intro x hx t ht
+    simp only [sigItemsGo, List.mem_append, List.mem_cons] at hx
+    rcases hx with (hx | hx) | rfl | hx
+    · split at hx
+      · simp only [List.mem_singleton] at hx; subst hx; simp only [List.mem_singleton] at ht; subst ht; rfl
+      · cases hx
+    · split at hx
+      · simp only [List.mem_singleton] at hx; subst hx; simp only [List.mem_singleton] at ht; subst ht; rfl
+      · cases hx
+    · exact c16_lexOk_rparamToks p (h p List.mem_cons_self) t ht
+    · exact ih _ _ (fun q hq => h q (List.mem_cons_of_mem _ hq)) x hx t ht
+
+/-- every token of a re-rendered method / function header is lexable -/
+theorem c16_lexOk_methodToks (f : String) (ps : List RParam) (ret : Option Ann) (hf : identOk f = true)
+    (hok : ∀ p ∈ ps, rparamOk p = true) (hret : optWf ret = true) :
+    ∀ t ∈ methodToks f ps ret, tokLexOk t = true := by
+  intro t ht
+  simp only [methodToks, List.mem_cons, List.mem_append, List.not_mem_nil, or_false] at ht
+  rcases ht with rfl | rfl | rfl | ht | rfl | ht | rfl | rfl
+  · decide
+  · exact c16_identChars_of_identOk hf
+  · rfl
+  · exact c16_lexOk_joinComma _ (c16_lexOk_sigItems ps false false hok) t ht
+  · rfl
+  · exact (c16_lexOk_optPart ret hret).2.2 t ht
   · rfl
   · rfl
 
